@@ -18,11 +18,12 @@ pub mod c14;
 pub mod c15;
 pub mod c16;
 pub mod c17;
+pub mod c18;
 pub mod c19;
 pub mod c20;
 pub mod fmt;
 
-pub const ALL: &[&str] = &["C02", "C03", "C04", "C05", "C06", "C07", "C08", "C09", "C10", "C11", "C12", "C13", "C14", "C15", "C16", "C17", "C19", "C20"];
+pub const ALL: &[&str] = &["C02", "C03", "C04", "C05", "C06", "C07", "C08", "C09", "C10", "C11", "C12", "C13", "C14", "C15", "C16", "C17", "C18", "C19", "C20"];
 
 pub fn exists(p: &str) -> bool {
     ALL.contains(&p)
@@ -46,6 +47,7 @@ pub fn run(p: &str, ctx: &mut Ctx) {
         "C15" => c15::run(ctx),
         "C16" => c16::run(ctx),
         "C17" => c17::run(ctx),
+        "C18" => c18::run(ctx),
         "C19" => c19::run(ctx),
         "C20" => c20::run(ctx),
         _ => panic!("unknown property {}", p),
@@ -71,6 +73,7 @@ pub fn meta(p: &str) -> (String, Vec<String>) {
         "C15" => (c15::RULE, c15::ASSUMPTIONS),
         "C16" => (c16::RULE, c16::ASSUMPTIONS),
         "C17" => (c17::RULE, c17::ASSUMPTIONS),
+        "C18" => (c18::RULE, c18::ASSUMPTIONS),
         "C19" => (c19::RULE, c19::ASSUMPTIONS),
         "C20" => (c20::RULE, c20::ASSUMPTIONS),
         _ => ("", &[]),
